@@ -1,0 +1,71 @@
+//go:build verif
+// +build verif
+
+package storage
+
+import (
+	"sync"
+
+	"github.com/marekgalovic/anndb/index"
+	pb "github.com/marekgalovic/anndb/protobuf"
+	"github.com/marekgalovic/anndb/utils"
+
+	uuid "github.com/satori/go.uuid"
+	log "github.com/sirupsen/logrus"
+)
+
+// Hooks for the simulation harness in /verif (build tag "verif"). Nothing
+// here is compiled into the shipped binaries and nothing changes behaviour.
+
+// VerifPartition is a partition's replicated state machine without raft: the
+// harness feeds it the bytes of committed log entries.
+type VerifPartition struct {
+	p *partition
+}
+
+func NewVerifPartition(dimension uint32, space pb.Space) *VerifPartition {
+	datasetId := uuid.NewV4()
+	partitionId := uuid.NewV4()
+	meta := &pb.Dataset{
+		Id:                datasetId.Bytes(),
+		Dimension:         dimension,
+		Space:             space,
+		PartitionCount:    1,
+		ReplicationFactor: 1,
+		Partitions:        []*pb.Partition{&pb.Partition{Id: partitionId.Bytes()}},
+	}
+	d := &Dataset{id: datasetId, meta: meta, partitionsMu: &sync.RWMutex{}}
+	p := &partition{
+		id:          partitionId,
+		meta:        meta.Partitions[0],
+		dataset:     d,
+		index:       newIndexFromDatasetProto(meta),
+		raftMu:      &sync.RWMutex{},
+		notificator: utils.NewNotificator(),
+		log:         log.WithFields(log.Fields{"partition_id": partitionId}),
+	}
+	return &VerifPartition{p: p}
+}
+
+// Apply hands one committed entry to the partition's apply function. If
+// notificationId is not nil the outcome the partition reports for the entry
+// is returned (nil, false if it reported nothing).
+func (this *VerifPartition) Apply(data []byte, notificationId uuid.UUID) (outcome interface{}, reported bool, err error) {
+	c := this.p.notificator.VerifCreate(notificationId, 1)
+	defer this.p.notificator.Remove(notificationId)
+	err = this.p.process(data)
+	select {
+	case outcome = <-c:
+		reported = true
+	default:
+	}
+	return
+}
+
+func (this *VerifPartition) Snapshot() ([]byte, error) { return this.p.snapshot() }
+func (this *VerifPartition) Restore(data []byte) error { return this.p.processSnapshot(data) }
+func (this *VerifPartition) Dump() *index.VerifState   { return this.p.index.VerifDump() }
+func (this *VerifPartition) Len() int                  { return this.p.len() }
+func (this *VerifPartition) BytesSize() uint64         { return this.p.bytesSize() }
+func (this *VerifPartition) RandomLevel() int          { return this.p.index.RandomLevel() }
+func (this *VerifPartition) Index() *index.Hnsw        { return this.p.index }
